@@ -52,10 +52,24 @@ def run(ctx):
             seqs = c07.ham_repertoire(rng, n)
         comp = rng.choice([1, 1, 2, 3, 5, 7, 10, 19, 20, 21, 25])
         mr = rng.choice([None, None, 1, 2, 3, 7])
+        if t % 8 == 7 and seqs:
+            # a sequence repeated more often than max_returns + 1: ties at distance 0 around the query itself
+            mr = rng.choice([1, 2, 3])
+            seqs = seqs + [rng.choice(seqs)] * (mr + rng.randint(2, 4))
+            rng.shuffle(seqs)
+            n = len(seqs)
         k = rng.choice([1, 2, 3])
         which = rng.randrange(6)
         maxc = rng.choice([None, 1, 2, 3, 6])
         cases.append(dict(n=n, ncpu=ncpu, mode=mode, seqs=seqs, comp=comp, mr=mr, k=k, which=which, maxc=maxc))
+    # pairs exactly ON the pre-filter radius: k substitutions of one residue by one other residue (squared histogram distance 2k^2),
+    # for every k up to 12 (quick) / 40: the uncompressed search must report them like any compressed one
+    for k in (range(1, 13) if ctx.quick else range(1, 41)):
+        x, y = rng.sample(gens.AA, 2)
+        seqs = ['C' + x * k + 'F', 'C' + y * k + 'F', 'C' + x * (k - 1) + y + 'F', 'C' + x * k + y + 'F']
+        rng.shuffle(seqs)
+        for comp in (1, rng.choice([2, 3, 5, 7, 19, 20])):
+            cases.append(dict(n=len(seqs), ncpu=rng.choice([1, 2]), mode='default', seqs=list(seqs), comp=comp, mr=None, k=k, which=0, maxc=None))
     reqs = []
     for c in cases:
         if c['mode'] == 'default':
